@@ -11,6 +11,7 @@ Section Grow.
   Variable rtl : bool.
   Notation F1 := (PropSim.F1 fn).
   Notation F2 := (PropSim.F2 fn).
+  Notation F3 := (PropSim.F3 fn).
   Notation COH := (PropSim.COH fn).
 
   Lemma in_ORD w p q l :
@@ -33,7 +34,7 @@ Section Grow.
   Qed.
 
   Lemma Inv_order_incl (o o' : nat -> list (nat * nat)) s :
-    (forall p x, In x (o p) -> In x (o' p)) -> AP.Inv F1 F2 o s [] -> AP.Inv F1 F2 o' s [].
+    (forall p x, In x (o p) -> In x (o' p)) -> AP.Inv F1 F2 F3 o s [] -> AP.Inv F1 F2 F3 o' s [].
   Proof. intros E H q t Ht. destruct (H q t Ht) as (A1 & A2 & A3 & A4). repeat split; auto. Qed.
 
   (* ---- the empty world ---- *)
@@ -71,7 +72,7 @@ Section Grow.
         destruct (Nat.eqb_spec p0 p) as [->|]; [inversion Hp0; reflexivity|auto].
       + apply (Inv_order_incl (ORD w)); [exact OR|].
         assert (Eo : ORD w p = []) by (unfold ORD; rewrite Pn; reflexivity).
-        pose proof (AP.Inv_env_change F1 F2 (ORD w) s [] p v) as IE. rewrite Eo in IE. cbn [app] in IE. apply IE.
+        pose proof (AP.Inv_env_change F1 F2 F3 (ORD w) s [] p v) as IE. rewrite Eo in IE. cbn [app] in IE. apply IE.
         * intros q t Ht. destruct (HInv q t Ht) as (A1 & A2 & A3 & A4). repeat split; auto.
         * intros t Ht. rewrite R2 in Ht. unfold imm_of in Ht. rewrite Hp in Ht. discriminate Ht.
   Qed.
@@ -139,13 +140,6 @@ Section Grow.
   Qed.
 
   (* ---- building a tree ---- *)
-  Fixpoint simple_expr (e : expr) : bool :=
-    match e with
-    | EConst _ | EProp _ => true
-    | EOp1 _ a => simple_expr a
-    | EOp2 _ a b => simple_expr a && simple_expr b
-    | EOp3 _ _ _ _ => false
-    end.
 
   (* what building leaves alone / only extends *)
   Definition GR (w w1 : world) : Prop :=
@@ -174,12 +168,12 @@ Section Grow.
   Lemma build_grow s0 bnew : forall e w next acc w1 nd n1,
     BI s0 bnew next acc [] w -> build fn rtl w bnew next e = inl (Some (w1, nd, n1)) ->
     GR w w1 /\
-    (simple_expr e = true -> forall env q, (forall p v, values w p = Some v -> env p = v) ->
-       exists T, abs_tree nd = Some T /\ A.clean T /\ A.consis F1 F2 env [] q T /\
+    (forall env q, (forall p v, values w p = Some v -> env p = v) ->
+       exists T, abs_tree nd = Some T /\ A.clean T /\ A.consis F1 F2 F3 env [] q T /\
                  (forall p lid, In (p, lid) (A.leaves T) -> values w1 p = Some (env p))).
   Proof.
     induction e as [v|p|f a IHa|f a IHa c IHc|f a IHa c IHc d IHd]; intros w next acc w' nd n' H0 H.
-    - cbn [build] in H. inversion H; subst. split; [apply GR_refl|]. intros _ env q Henv. exists (A.Const v). cbn. repeat split; auto. intros p lid [].
+    - cbn [build] in H. inversion H; subst. split; [apply GR_refl|]. intros env q Henv. exists (A.Const v). cbn. repeat split; auto. intros p lid [].
     - cbn [build] in H.
       destruct (subscribe w p KChanged (SNode bnew next)) as [[w1 hc]|] eqn:S1; [|discriminate H].
       destruct (subscribe w1 p KMoved (SNode bnew next)) as [[w2 hm]|] eqn:S2; [|discriminate H].
@@ -191,19 +185,19 @@ Section Grow.
       pose proof (BI_sub _ _ _ _ _ _ _ _ _ _ _ H1 E2) as H2.
       pose proof (subscribe_ext _ _ _ _ _ _ S3 (pi_twf _ _ _ _ _ _ _ (bi_inv _ _ _ _ _ _ H2)) (pi_own _ _ _ _ _ _ _ (bi_inv _ _ _ _ _ _ H2))) as E3.
       assert (G : GR w w') by (eapply GR_trans; [eapply GR_sub; exact E1|eapply GR_trans; eapply GR_sub; eauto]).
-      split; [exact G|]. intros _ env q Henv. exists (A.Leaf p next false). cbn. repeat split; auto.
+      split; [exact G|]. intros env q Henv. exists (A.Leaf p next false). cbn. repeat split; auto.
       intros p0 lid [E|[]]. inversion E; subst p0 lid. destruct G as (_ & _ & Gv & _). rewrite Gv.
       unfold subscribe in S1. unfold values. destruct (lookup (w_props w) p) as [pr|] eqn:Hp; [|discriminate S1]. cbn. f_equal. symmetry. apply Henv. unfold values. rewrite Hp. reflexivity.
     - cbn [build] in H. destruct (build fn rtl w bnew next a) as [[[[w1 na] n1]|]|ex] eqn:Ha; try discriminate H.
       destruct (IHa _ _ _ _ _ _ H0 Ha) as [G1 T1].
       destruct (eval fn rtl (values w1) (NOp1 f true 0%Z na)) as [[t r] l] eqn:He. destruct r as [v|ex]; [|discriminate H]. inversion H; subst; clear H.
       split; [eapply GR_trans; [exact G1|apply GR_log_fns]|].
-      intros Hs env q Henv. cbn [simple_expr] in Hs. destruct (T1 Hs env q Henv) as (Ta & Ea & Ca & Na & Va).
+      intros env q Henv. destruct (T1 env q Henv) as (Ta & Ea & Ca & Na & Va).
       assert (Eabs : abs_tree (NOp1 f true 0%Z na) = Some (A.Un f true 0%Z Ta)) by (cbn [abs_tree]; rewrite Ea; reflexivity).
       destruct (sim_eval fn rtl (values w1) env _ _ _ _ _ Eabs Va He) as [Et Ev]. cbn [A.eval] in Et, Ev.
-      rewrite (AP.eval_clean F1 F2 env Ta Ca) in Et, Ev. cbn [fst snd] in Et, Ev.
+      rewrite (AP.eval_clean F1 F2 F3 env Ta Ca) in Et, Ev. cbn [fst snd] in Et, Ev.
       eexists. split; [exact Et|]. split; [cbn; auto|]. split.
-      + cbn [A.consis]. split; [exact Na|]. intros _. cbn [A.den]. rewrite (AP.val_den F1 F2 env [] q Ta Ca Na); [reflexivity|]. intros p0 lid _ [].
+      + cbn [A.consis]. split; [exact Na|]. intros _. cbn [A.den]. rewrite (AP.val_den F1 F2 F3 env [] q Ta Ca Na); [reflexivity|]. intros p0 lid _ [].
       + intros p0 lid Hi. cbn [A.leaves] in Hi. unfold values. rewrite PropProofs.log_fns_props. apply (Va p0 lid Hi).
     - cbn [build] in H. destruct (build fn rtl w bnew next a) as [[[[w1 na] n1]|]|ex] eqn:Ha; try discriminate H.
       destruct (IHa _ _ _ _ _ _ H0 Ha) as [G1 T1]. destruct (build_BI fn rtl _ _ _ _ _ _ _ _ _ H0 Ha) as (H1 & _).
@@ -211,28 +205,46 @@ Section Grow.
       destruct (IHc _ _ _ _ _ _ H1 Hc) as [G2 T2].
       destruct (eval fn rtl (values w2) (NOp2 f true 0%Z na nc)) as [[t r] l] eqn:He. destruct r as [v|ex]; [|discriminate H]. inversion H; subst; clear H.
       split; [eapply GR_trans; [exact G1|eapply GR_trans; [exact G2|apply GR_log_fns]]|].
-      intros Hs env q Henv. cbn [simple_expr] in Hs. apply andb_prop in Hs. destruct Hs as [Hsa Hsc].
-      destruct (T1 Hsa env q Henv) as (Ta & Ea & Ca & Na & Va).
+      intros env q Henv.
+      destruct (T1 env q Henv) as (Ta & Ea & Ca & Na & Va).
       assert (Henv1 : forall p v0, values w1 p = Some v0 -> env p = v0) by (intros p v0 E; apply Henv; destruct G1 as (_ & _ & Gv & _); rewrite <- Gv; exact E).
-      destruct (T2 Hsc env q Henv1) as (Tc & Ec & Cc & Nc & Vc).
+      destruct (T2 env q Henv1) as (Tc & Ec & Cc & Nc & Vc).
       assert (Va2 : forall p lid, In (p, lid) (A.leaves Ta) -> values w2 p = Some (env p)) by (intros p lid Hi; destruct G2 as (_ & _ & Gv & _); rewrite Gv; eauto).
       assert (Eabs : abs_tree (NOp2 f true 0%Z na nc) = Some (A.Bin f true 0%Z Ta Tc)) by (cbn [abs_tree]; rewrite Ea, Ec; reflexivity).
       assert (Vall : forall p lid, In (p, lid) (A.leaves (A.Bin f true 0%Z Ta Tc)) -> values w2 p = Some (env p)).
       { intros p lid Hi. cbn [A.leaves] in Hi. apply in_app_iff in Hi. destruct Hi; eauto. }
       destruct (sim_eval fn rtl (values w2) env _ _ _ _ _ Eabs Vall He) as [Et Ev]. cbn [A.eval] in Et, Ev.
-      rewrite (AP.eval_clean F1 F2 env Ta Ca), (AP.eval_clean F1 F2 env Tc Cc) in Et, Ev. cbn [fst snd] in Et, Ev.
+      rewrite (AP.eval_clean F1 F2 F3 env Ta Ca), (AP.eval_clean F1 F2 F3 env Tc Cc) in Et, Ev. cbn [fst snd] in Et, Ev.
       eexists. split; [exact Et|]. split; [cbn; auto|]. split.
       + cbn [A.consis]. split; [exact Na|]. split; [exact Nc|]. intros _. cbn [A.den].
-        rewrite (AP.val_den F1 F2 env [] q Ta Ca Na), (AP.val_den F1 F2 env [] q Tc Cc Nc); [reflexivity| |]; intros p0 lid _ [].
+        rewrite (AP.val_den F1 F2 F3 env [] q Ta Ca Na), (AP.val_den F1 F2 F3 env [] q Tc Cc Nc); [reflexivity| |]; intros p0 lid _ [].
       + intros p0 lid Hi. unfold values. rewrite PropProofs.log_fns_props. apply (Vall p0 lid Hi).
     - cbn [build] in H. destruct (build fn rtl w bnew next a) as [[[[w1 na] n1]|]|ex] eqn:Ha; try discriminate H.
-      destruct (IHa _ _ _ _ _ _ H0 Ha) as [G1 _]. destruct (build_BI fn rtl _ _ _ _ _ _ _ _ _ H0 Ha) as (H1 & _).
+      destruct (IHa _ _ _ _ _ _ H0 Ha) as [G1 T1]. destruct (build_BI fn rtl _ _ _ _ _ _ _ _ _ H0 Ha) as (H1 & _).
       destruct (build fn rtl w1 bnew n1 c) as [[[[w2 nc] n2]|]|ex] eqn:Hc; try discriminate H.
-      destruct (IHc _ _ _ _ _ _ H1 Hc) as [G2 _]. destruct (build_BI fn rtl _ _ _ _ _ _ _ _ _ H1 Hc) as (H2 & _).
+      destruct (IHc _ _ _ _ _ _ H1 Hc) as [G2 T2]. destruct (build_BI fn rtl _ _ _ _ _ _ _ _ _ H1 Hc) as (H2 & _).
       destruct (build fn rtl w2 bnew n2 d) as [[[[w3 ndd] n3]|]|ex] eqn:Hd; try discriminate H.
-      destruct (IHd _ _ _ _ _ _ H2 Hd) as [G3 _].
+      destruct (IHd _ _ _ _ _ _ H2 Hd) as [G3 T3].
       destruct (eval fn rtl (values w3) (NOp3 f true 0%Z na nc ndd)) as [[t r] l] eqn:He. destruct r as [v|ex]; [|discriminate H]. inversion H; subst; clear H.
-      split; [eapply GR_trans; [exact G1|eapply GR_trans; [exact G2|eapply GR_trans; [exact G3|apply GR_log_fns]]]|]. intros Hs. discriminate Hs.
+      split; [eapply GR_trans; [exact G1|eapply GR_trans; [exact G2|eapply GR_trans; [exact G3|apply GR_log_fns]]]|].
+      intros env q Henv.
+      destruct (T1 env q Henv) as (Ta & Ea & Ca & Na & Va).
+      assert (Henv1 : forall p v0, values w1 p = Some v0 -> env p = v0) by (intros p v0 E; apply Henv; destruct G1 as (_ & _ & Gv & _); rewrite <- Gv; exact E).
+      destruct (T2 env q Henv1) as (Tc & Ec & Cc & Nc & Vc).
+      assert (Henv2 : forall p v0, values w2 p = Some v0 -> env p = v0) by (intros p v0 E; apply Henv1; destruct G2 as (_ & _ & Gv & _); rewrite <- Gv; exact E).
+      destruct (T3 env q Henv2) as (Td & Ed & Cd & Nd & Vd).
+      assert (Va3 : forall p lid, In (p, lid) (A.leaves Ta) -> values w3 p = Some (env p)).
+      { intros p lid Hi. destruct G2 as (_ & _ & Gv2 & _), G3 as (_ & _ & Gv3 & _). rewrite Gv3, Gv2. eauto. }
+      assert (Vc3 : forall p lid, In (p, lid) (A.leaves Tc) -> values w3 p = Some (env p)) by (intros p lid Hi; destruct G3 as (_ & _ & Gv & _); rewrite Gv; eauto).
+      assert (Eabs : abs_tree (NOp3 f true 0%Z na nc ndd) = Some (A.Tern f true 0%Z Ta Tc Td)) by (cbn [abs_tree]; rewrite Ea, Ec, Ed; reflexivity).
+      assert (Vall : forall p lid, In (p, lid) (A.leaves (A.Tern f true 0%Z Ta Tc Td)) -> values w3 p = Some (env p)).
+      { intros p lid Hi. cbn [A.leaves] in Hi. apply in_app_iff in Hi. destruct Hi as [Hi|Hi]; [eauto|]. apply in_app_iff in Hi. destruct Hi; eauto. }
+      destruct (sim_eval fn rtl (values w3) env _ _ _ _ _ Eabs Vall He) as [Et Ev]. cbn [A.eval] in Et, Ev.
+      rewrite (AP.eval_clean F1 F2 F3 env Ta Ca), (AP.eval_clean F1 F2 F3 env Tc Cc), (AP.eval_clean F1 F2 F3 env Td Cd) in Et, Ev. cbn [fst snd] in Et, Ev.
+      eexists. split; [exact Et|]. split; [cbn; auto|]. split.
+      + cbn [A.consis]. split; [exact Na|]. split; [exact Nc|]. split; [exact Nd|]. intros _. cbn [A.den].
+        rewrite (AP.val_den F1 F2 F3 env [] q Ta Ca Na), (AP.val_den F1 F2 F3 env [] q Tc Cc Nc), (AP.val_den F1 F2 F3 env [] q Td Cd Nd); [reflexivity| | |]; intros p0 lid _ [].
+      + intros p0 lid Hi. unfold values. rewrite PropProofs.log_fns_props. apply (Vall p0 lid Hi).
   Qed.
 
   (* ---- a new immediate binding object (not yet installed in a property) ---- *)
@@ -240,8 +252,8 @@ Section Grow.
     pinv w -> make_binding fn rtl w e MImmediate = inl (w1, b) ->
     GR w w1 /\ b = length (w_binds w) /\
     exists xb, get_bind w1 b = Some xb /\ b_evp xb = 0 /\ b_target xb = None /\
-      (simple_expr e = true -> forall env q, (forall p v, values w p = Some v -> env p = v) ->
-         exists T, abs_tree (b_root xb) = Some T /\ A.clean T /\ A.consis F1 F2 env [] q T /\
+      (forall env q, (forall p v, values w p = Some v -> env p = v) ->
+         exists T, abs_tree (b_root xb) = Some T /\ A.clean T /\ A.consis F1 F2 F3 env [] q T /\
                    (forall p lid, In (p, lid) (A.leaves T) -> values w1 p = Some (env p))).
   Proof.
     intros Hinv H. unfold make_binding in H. destruct (nth_error (w_evps w) 0) as [st|]; [|discriminate H].
@@ -286,22 +298,9 @@ Section Grow.
         unfold imm in *. destruct (get_bind w1' b') as [x'|] eqn:Eg; [|discriminate Hi]. rewrite Gold by congruence. rewrite Eg. exact Hi.
       - auto. }
     split; [eapply GR_trans; eauto|]. split; [reflexivity|]. exists nb. split; [exact Gn|]. split; [reflexivity|]. split; [reflexivity|].
-    intros Hs env q Henv. destruct (T Hs env q Henv) as (T0 & E0 & C0 & N0 & V0). exists T0. repeat split; auto.
+    intros env q Henv. destruct (T env q Henv) as (T0 & E0 & C0 & N0 & V0). exists T0. repeat split; auto.
   Qed.
 
-  Lemma abs_leaf_in : forall t T p lid, abs_tree t = Some T -> In (p, lid) (A.leaves T) ->
-    exists lf, In lf (leaves t) /\ lf_tg lf = Some p /\ lf_id lf = lid.
-  Proof.
-    induction t as [v|tg d l hc hm hd|f d c a IHa|f d c a IHa b0 IHb|f d c a IHa b0 IHb e IHe]; intros T p lid Ht Hi; cbn [abs_tree] in Ht.
-    - inversion Ht; subst. destruct Hi.
-    - destruct tg as [p0|]; inversion Ht; subst. destruct Hi as [E|[]]. inversion E; subst. eexists. split; [left; reflexivity|auto].
-    - destruct (abs_tree a) as [a'|]; [|discriminate Ht]. inversion Ht; subst. cbn in Hi. destruct (IHa _ _ _ eq_refl Hi) as (lf & H1 & H2). eauto.
-    - destruct (abs_tree a) as [a'|]; [|discriminate Ht]. destruct (abs_tree b0) as [b'|]; [|discriminate Ht]. inversion Ht; subst.
-      cbn [A.leaves] in Hi. apply in_app_iff in Hi. destruct Hi as [Hi|Hi].
-      + destruct (IHa _ _ _ eq_refl Hi) as (lf & H1 & H2). exists lf. split; [cbn [leaves]; apply in_or_app; auto|exact H2].
-      + destruct (IHb _ _ _ eq_refl Hi) as (lf & H1 & H2). exists lf. split; [cbn [leaves]; apply in_or_app; auto|exact H2].
-    - discriminate Ht.
-  Qed.
 
   Lemma values_lookup w p v : values w p = Some v <-> exists pr, lookup (w_props w) p = Some pr /\ pr_value pr = v.
   Proof.
@@ -332,7 +331,7 @@ Section Grow.
     SC w -> COH w -> lookup (w_props w) p = Some pr -> pr_updater pr = None ->
     get_bind w b = Some xb -> b_evp xb = 0 -> b_target xb = None -> (forall n, lookup (w_held w) n <> Some b) ->
     abs_tree (b_root xb) = Some T ->
-    (forall s, Rel w s -> A.clean T /\ A.consis F1 F2 (A.env s) [] p T /\ (forall p0 lid, In (p0, lid) (A.leaves T) -> values w p0 = Some (A.env s p0))) ->
+    (forall s, Rel w s -> A.clean T /\ A.consis F1 F2 F3 (A.env s) [] p T /\ (forall p0 lid, In (p0, lid) (A.leaves T) -> values w p0 = Some (A.env s p0))) ->
     assign_binding fn rtl fuel w p b = (w', None) -> SC w' /\ COH w'.
   Proof.
     intros (Hinv & Hna & Hsi) (s & HRel & HInv) Hp Hu Hb Hevp Htg Hheld HT Htree H.
@@ -353,8 +352,8 @@ Section Grow.
       destruct (Nat.eqb_spec q p) as [->|]; [rewrite Hp; reflexivity|reflexivity]. }
     destruct (eval fn rtl (values w3) (b_root xb)) as [[t r] l] eqn:He. destruct r as [v|ex]; [|discriminate H].
     assert (HV3 : forall p0 lid, In (p0, lid) (A.leaves T) -> values w3 p0 = Some (A.env s p0)) by (intros; rewrite V3; eauto).
-    destruct (sim_eval fn rtl (values w3) (A.env s) _ _ _ _ _ HT HV3 He) as [Et Ev]. rewrite (AP.eval_clean F1 F2 (A.env s) T HC) in Et, Ev. cbn [fst snd] in Et, Ev.
-    assert (Hden : v = A.den F1 F2 (A.env s) T) by (rewrite Ev; apply (AP.val_den F1 F2 (A.env s) [] p T HC HN); intros p0 lid _ []).
+    destruct (sim_eval fn rtl (values w3) (A.env s) _ _ _ _ _ HT HV3 He) as [Et Ev]. rewrite (AP.eval_clean F1 F2 F3 (A.env s) T HC) in Et, Ev. cbn [fst snd] in Et, Ev.
+    assert (Hden : v = A.den F1 F2 F3 (A.env s) T) by (rewrite Ev; apply (AP.val_den F1 F2 F3 (A.env s) [] p T HC HN); intros p0 lid _ []).
     assert (Hb3 : get_bind w3 b = Some xb3).
     { unfold get_bind, w3, put_bind; cbn [set_binds w_binds]. change (w_binds w2) with (w_binds w). rewrite nth_upd_same by exact Hlt.
       unfold xb3; cbn [bind_with_target b_alive]. rewrite Hal. reflexivity. }
@@ -401,10 +400,10 @@ Section Grow.
       - intros q x Hx. rewrite IO4 in Hx. destruct (Nat.eqb_spec q p) as [->|]; [|eauto]. inversion Hx; subst x. cbn [bind_with_root b_root]. congruence. }
     destruct (sim_set fn rtl (ORD w4) fuel w4 p v w' s4 SC4 (fun _ => eq_refl) Rel4 H) as (SC' & FR' & Rel').
     split; [exact SC'|].
-    exists (A.set F1 F2 (ORD w4) fuel s4 p v). split; [exact Rel'|].
+    exists (A.set F1 F2 F3 (ORD w4) fuel s4 p v). split; [exact Rel'|].
     apply (Inv_order_incl (ORD w4)); [intros p0 x Hi; rewrite (FR_ORD _ _ p0 FR'); exact Hi|].
     (* everything but the value of p itself is in order *)
-    assert (Pre : AP.PreInv F1 F2 (ORD w4) s4 [] p).
+    assert (Pre : AP.PreInv F1 F2 F3 (ORD w4) s4 [] p).
     { intros q t0 Ht0. cbn [s4 A.tr A.env] in *. unfold A.set_tr in Ht0. destruct (Nat.eqb_spec q p) as [->|Hne].
       - inversion Ht0; subst t0. split; [exact HC|]. split; [exact HN|]. split; [intros Hx; contradiction|].
         intros p0 lid Hi. destruct (abs_leaf_in _ _ _ _ HT Hi) as (lf & Hlf & Htg0 & Hid).
@@ -413,22 +412,22 @@ Section Grow.
         destruct (pi_leafc _ _ _ _ _ _ _ Hinv4 _ _ _ Hl4 Htg0 (fun z => z)) as [Ho Hv]. apply in_ORD.
         exists (h_table (lf_hc lf)), (h_pos (lf_hc lf)), (h_serial (lf_hc lf)), b. split; [exact Ho|]. split; [rewrite <- Hid; exact Hv|]. rewrite I4, Nat.eqb_refl. reflexivity.
       - destruct (HInv q t0 Ht0) as (A1 & A2 & A3 & A4). repeat split; auto. }
-    assert (Hv : forall t0, A.tr s4 p = Some t0 -> A.nopend [] p t0 -> v = A.den F1 F2 (A.env s4) t0).
+    assert (Hv : forall t0, A.tr s4 p = Some t0 -> A.nopend [] p t0 -> v = A.den F1 F2 F3 (A.env s4) t0).
     { intros t0 Ht0 _. cbn [s4 A.tr A.env] in *. unfold A.set_tr in Ht0. rewrite Nat.eqb_refl in Ht0. inversion Ht0; subst t0. exact Hden. }
     unfold A.set in *. destruct (Z.eqb v (A.env s4 p)) eqn:Ez.
     - (* the new expression gives the value the property has already *)
       apply Z.eqb_eq in Ez. intros q t0 Ht0. destruct (Pre q t0 Ht0) as (A1 & A2 & A3 & A4). repeat split; auto.
       intros Hn. destruct (Nat.eq_dec q p) as [->|Hne]; [|auto]. rewrite <- Ez. apply Hv; assumption.
-    - pose proof (AP.Inv_env_change F1 F2 (ORD w4) s4 [] p v Pre Hv) as IE.
-      apply (proj2 (AP.notify_ok F1 F2 (ORD w4) fuel)); [exact IE|]. destruct Rel' as (_ & _ & Q3). exact Q3.
+    - pose proof (AP.Inv_env_change F1 F2 F3 (ORD w4) s4 [] p v Pre Hv) as IE.
+      apply (proj2 (AP.notify_ok F1 F2 F3 (ORD w4) fuel)); [exact IE|]. destruct Rel' as (_ & _ & Q3). exact Q3.
   Qed.
 
   (* ---- p = makeBoundProperty(expression): a fresh property bound with immediate evaluation ---- *)
   Lemma grow_bind fuel w p e w' :
-    SC w -> COH w -> lookup (w_props w) p = None -> simple_expr e = true ->
+    SC w -> COH w -> lookup (w_props w) p = None ->
     step1 fn rtl fuel w (PBind p e MImmediate) = (w', None) -> SC w' /\ COH w'.
   Proof.
-    intros HSC HC Hp Hs H. pose proof HSC as (Hinv & Hna & Hsi). cbn [step1] in H.
+    intros HSC HC Hp H. pose proof HSC as (Hinv & Hna & Hsi). cbn [step1] in H.
     destruct (make_binding fn rtl w e MImmediate) as [[w1 b]|x] eqn:Hm; [|discriminate H].
     destruct (make_binding_grow _ _ _ _ Hinv Hm) as (G & Eb & xb & Hxb & Hevp & Htg & Htree).
     destruct (make_binding_pinv _ _ _ _ _ _ _ Hinv Hm) as (Hinv1 & _ & Hheld).
@@ -439,11 +438,11 @@ Section Grow.
     destruct (grow_new w1 p 0%Z SC1 COH1 Hp1) as (SCn & COHn).
     set (w1n := set_props w1 (bind_key (w_props w1) p (prop_new 0%Z))) in *.
     set (env0 := fun p0 => match values w p0 with Some v => v | None => 0%Z end).
-    destruct (Htree Hs env0 p) as (T & HT & _); [intros p0 v0 E; unfold env0; rewrite E; reflexivity|].
+    destruct (Htree env0 p) as (T & HT & _); [intros p0 v0 E; unfold env0; rewrite E; reflexivity|].
     apply (assign_fresh fuel w1n p (prop_new 0%Z) b xb T w' SCn COHn); auto.
     - unfold w1n; cbn [set_props w_props]. apply lookup_bind_same.
     - intros s (R1 & R2 & R3).
-      destruct (Htree Hs (A.env s) p) as (T' & HT' & C' & N' & V').
+      destruct (Htree (A.env s) p) as (T' & HT' & C' & N' & V').
       { intros p0 v0 E. destruct G as (_ & _ & G3 & _). rewrite <- G3 in E. apply values_lookup in E. destruct E as (pr0 & Hp0 & Ev).
         assert (Hne : p0 <> p) by (intros ->; congruence).
         rewrite <- Ev. apply R1. unfold w1n; cbn [set_props w_props]. rewrite lookup_bind_other by exact Hne. exact Hp0. }
@@ -467,7 +466,7 @@ Section Grow.
     match o with
     | PNew _ _ | PSet _ _ _ | PGet _ | PHasBinding _ => True
     | PObserve _ _ _ _ None => True
-    | PBind p e MImmediate => lookup (w_props w) p = None /\ simple_expr e = true
+    | PBind p e MImmediate => lookup (w_props w) p = None
     | _ => False
     end.
 
@@ -482,7 +481,7 @@ Section Grow.
     - cbn [step1] in H. destruct (lookup (w_props w) p); [|discriminate H]. inversion H; subst.
       destruct HSC as (Hinv & Hna & Hsi). split; [split; [eapply pinv_views; [apply views_log|exact Hinv]|split; [exact Hna|exact Hsi]]|exact HC].
     - destruct act; [destruct Ho|]. eapply grow_observe; eauto.
-    - destruct m; [|destruct Ho]. destruct Ho as [Hp Hs]. eapply grow_bind; eauto.
+    - destruct m; [|destruct Ho]. eapply grow_bind; eauto.
   Qed.
 
   Fixpoint grow_run_ok (fuel : nat) (w : world) (ops : list op) : Prop :=
